@@ -141,6 +141,45 @@ def probe_metamodel(invariants: Optional[Sequence[mmg.Invariant]] = None) -> mmg
         All(ForEach("item", P("items")),
             Implies(Member(Name("item"), "flag"),
                     Cmp("<", Sub(Member(Name("item"), "weight"), Const(1)), Sub(a, Sub(b, k))))))
+    # ---- quantifier kind (any / all) x iteration kind (for-each / for-range), nested, under not / implication
+    items = P("items")
+    rng_i = lambda v: ForRange(v, Const(0), Call("len", (items,)))  # noqa: E731
+    at = lambda v: Index(items, Name(v))  # noqa: E731
+    inv("some item by index flagged", AnyOf(rng_i("i"), Member(at("i"), "flag")))
+    inv("some item by index heavy", AnyOf(rng_i("i"), Cmp(">=", Member(at("i"), "weight"), Const(5))))
+    inv("all items by index flagged", All(rng_i("i"), Member(at("i"), "flag")))
+    inv("all items flagged", All(ForEach("item", items), Member(Name("item"), "flag")))
+    inv("some item light", AnyOf(ForEach("item", items), Cmp("<", Member(Name("item"), "weight"), Const(5))))
+    inv("not some item by index flagged", Not(AnyOf(rng_i("i"), Member(at("i"), "flag"))))
+    inv("not all items by index light", Not(All(rng_i("i"), Cmp("<", Member(at("i"), "weight"), Const(5)))))
+    inv("p implies some item by index flagged", Implies(p_, AnyOf(rng_i("i"), Member(at("i"), "flag"))))
+    inv("some item by index flagged implies q", Implies(AnyOf(rng_i("i"), Member(at("i"), "flag")), q_))
+    inv("all items light implies some item by index flagged",
+        Implies(All(ForEach("item", items), Cmp("<", Member(Name("item"), "weight"), Const(5))),
+                AnyOf(rng_i("i"), Member(at("i"), "flag"))))
+    inv("all by index light or some flagged and q",
+        Or((All(rng_i("i"), Cmp("<", Member(at("i"), "weight"), Const(5))),
+            And((AnyOf(ForEach("item", items), Member(Name("item"), "flag")), q_)))))
+    inv("every item is matched by some item not lighter",
+        All(ForEach("item", items),
+            AnyOf(ForEach("other", items), Cmp(">=", Member(Name("other"), "weight"), Member(Name("item"), "weight")))))
+    inv("some index holds a heaviest item",
+        AnyOf(rng_i("i"), All(rng_i("j"), Cmp("<=", Member(at("j"), "weight"), Member(at("i"), "weight")))))
+    inv("every item has a flagged index not lighter",
+        All(ForEach("item", items),
+            AnyOf(rng_i("i"), And((Member(at("i"), "flag"),
+                                   Cmp(">=", Member(at("i"), "weight"), Member(Name("item"), "weight")))))))
+    inv("some index below which all items are light",
+        AnyOf(rng_i("i"), All(ForEach("item", items),
+                              Or((Cmp("<", Member(Name("item"), "weight"), Const(5)), Member(at("i"), "flag"))))))
+    inv("not every item has a lighter or equal flagged one",
+        Not(All(ForEach("item", items),
+                AnyOf(ForEach("other", items), And((Member(Name("other"), "flag"),
+                                                    Cmp("<=", Member(Name("other"), "weight"), Member(Name("item"), "weight"))))))))
+    inv("oitems unset or some oitem by index labelled abc",
+        Or((IsNone(P("oitems")),
+            AnyOf(ForRange("i", Const(0), Call("len", (P("oitems"),))),
+                  Cmp(">", Member(Index(P("oitems"), Name("i")), "weight"), Const(3))))))
     inv("last item by index light",
         Or((Cmp("<", Call("len", (P("items"),)), Const(1)),
             Cmp("<", Member(Index(P("items"), Sub(Call("len", (P("items"),)), Const(1))), "weight"), Const(5)))))
@@ -198,6 +237,7 @@ class _ExprGen:
         self.rng = rng
         self.S = Name("self")
         self.used_optionals = set()
+        self.bound = False
 
     def P(self, n):
         return Member(self.S, n)
@@ -244,8 +284,12 @@ class _ExprGen:
                 return r.choice([IsNone, IsNotNone])(self.P(n))
             if c < 0.68:
                 return Call("matches_probe_word", (self.P(r.choice(["s", "t"])),))
+            if c < 0.84:
+                return self.quantifier(1)
             return self.cmp(1)
         c = r.random()
+        if c < 0.1 and not self.bound:
+            return self.quantifier(d - 1)
         if c < 0.2:
             return self.cmp(d - 1)
         if c < 0.38:
@@ -255,6 +299,32 @@ class _ExprGen:
         if c < 0.78:
             return Or(tuple(self.bool_(d - 1) for _ in range(r.choice([2, 2, 3]))))
         return Implies(self.bool_(d - 1), self.bool_(d - 1))
+
+    def quantifier(self, d: int, level: int = 0):
+        """any / all over for-each / for-range of the items, possibly one nested inside."""
+        r = self.rng
+        q = r.choice([All, AnyOf])
+        items = self.P("items")
+        if r.random() < 0.5:
+            var = ["item", "other"][level]
+            gen, elem = ForEach(var, items), Name(var)
+        else:
+            var = ["i", "j"][level]
+            gen, elem = ForRange(var, Const(0), Call("len", (items,))), Index(items, Name(var))
+        atoms = [Member(elem, "flag"), Cmp(r.choice(mmg.CMP_OPS), Member(elem, "weight"), Const(r.choice([0, 3, 5, 10]))),
+                 Cmp(r.choice(["<", ">="]), Member(elem, "weight"), self.P(r.choice(["a", "b"])))]
+        cond = r.choice(atoms)
+        c = r.random()
+        if c < 0.2:
+            cond = Not(cond)
+        elif c < 0.4:
+            cond = r.choice([And, Or])((cond, self.P(r.choice(["p", "q"]))))
+        elif c < 0.55:
+            cond = Implies(self.P(r.choice(["p", "q"])), cond)
+        elif c < 0.8 and level == 0:
+            inner = self.quantifier(d - 1, 1)
+            cond = r.choice([inner, And((cond, inner)), Implies(cond, inner), Not(inner)])
+        return q(gen, cond)
 
     def cmp(self, d: int):
         for _ in range(20):
@@ -459,6 +529,43 @@ def gen_instances(mm: mmg.MetaModel, rng: random.Random, n: int) -> List[Dict[st
     for k in range(n):
         cls = roots[k % len(roots)] if k < len(roots) else rng.choice(roots)
         out.append(g.instance(cls))
+    return out
+
+
+def curated_quantifier_instances(mm: mmg.MetaModel, rng: random.Random, limit: int = 8) -> List[Dict[str, Any]]:
+    """Instances whose lists of class instances have three elements of which all / none /
+    only the first / only the last carry a given boolean and a small integer value — so that
+    `any` and `all`, over elements and over indices, see lists where only SOME elements satisfy
+    the condition."""
+    g = InstanceGen(mm, rng)
+    out: List[Dict[str, Any]] = []
+    patterns = [(True, True, True), (False, False, False), (True, False, False), (False, False, True)]
+    for cls in mm.classes:
+        if cls.is_abstract or cls.is_implementation_specific:
+            continue
+        props = mmg.stacked_properties(mm, cls)
+        lists = [p for p, _ in props if isinstance(mmg.beneath_optional(p.type), TList)
+                 and isinstance(mmg.beneath_optional(p.type).items, TOur)
+                 and g.concretes(mmg.beneath_optional(p.type).items.name)]
+        if not lists:
+            continue
+        for pat in patterns:
+            if len(out) >= limit:
+                return out
+            inst = g.instance(cls)
+            for p in lists:
+                ecls = g.concretes(mmg.beneath_optional(p.type).items.name)[0]
+                elems = []
+                for on in pat:
+                    e = g.instance(ecls, 1)
+                    for ep, _ in mmg.stacked_properties(mm, ecls):
+                        if ep.type == TPrim("bool"):
+                            e["fields"][ep.name] = on
+                        elif ep.type == TPrim("int"):
+                            e["fields"][ep.name] = 1 if on else 7
+                    elems.append(e)
+                inst["fields"][p.name] = elems
+            out.append(inst)
     return out
 
 
